@@ -13,8 +13,9 @@ ID = "C15"
 LEVEL = "exploration"
 DESIGN_REF = "DESIGN.md 5 C15"
 RULE = (
-    "case = (quad map: structured n x m, the library's OneCore/FourCore/Oval/HalfDisk maps, an irregular map with a "
-    "valence-3 and a valence-5 point; or hex assembly 2x2x2, 3x3x1..3 of boxes) x interior jitter level x frame; inside: "
+    "case = (quad map: structured n x m, the library's OneCore/FourCore/Oval/HalfDisk maps, an irregular map, star maps "
+    "whose interior points have valence n (n = 3,5,6[,7]), 4 and 3; or hex assembly 2x2x2, 3x3x1..3 of boxes, the star "
+    "map extruded in two layers (a node of valence n+2)) x interior jitter level x frame; inside: "
     "every subset (<=16) of interior points fixed by index and by position x iterations in {1,2,5,50,200}; reference: "
     "adjacency model derived from the index lists alone (boundary = edge/quad owned by one cell, neighbours = cell "
     "edges). non-trivial = a distinct (map, fixed set, iterations) smoothing run"
@@ -76,6 +77,39 @@ def irregular_quads():
     return np.array(pos, float), quads
 
 
+def star_quads(n):
+    """n quads around a centre point of valence n (index 0), surrounded by a ring of 2n quads, so that the centre
+    (valence n), the n spoke points (valence 4) and the n corner points (valence 3) are all interior"""
+    d = 2 * np.pi / n
+    pos = [[0.0, 0.0, 0.0]]
+    a = lambda k: 1 + k % n  # noqa: E731
+    b = lambda k: 1 + n + k % n  # noqa: E731
+    A = lambda k: 1 + 2 * n + k % n  # noqa: E731
+    B = lambda k: 1 + 3 * n + k % n  # noqa: E731
+    pos += [[np.cos(d * k), np.sin(d * k), 0] for k in range(n)]
+    pos += [[1.5 * np.cos(d * (k + 0.5)), 1.5 * np.sin(d * (k + 0.5)), 0] for k in range(n)]
+    pos += [[2.4 * np.cos(d * k), 2.4 * np.sin(d * k), 0] for k in range(n)]
+    pos += [[2.8 * np.cos(d * (k + 0.5)), 2.8 * np.sin(d * (k + 0.5)), 0] for k in range(n)]
+    quads = []
+    for k in range(n):
+        quads.append([0, a(k), b(k), a(k + 1)])
+        quads.append([a(k), A(k), B(k), b(k)])
+        quads.append([b(k), B(k), A(k + 1), a(k + 1)])
+    return np.array(pos, float), quads
+
+
+def star_hexes(n):
+    """the star map extruded in two layers: the centre point of the middle layer has valence n + 2"""
+    p2, quads = star_quads(n)
+    m = len(p2)
+    pos = np.vstack([p2 + [0, 0, z] for z in (0.0, 0.8, 1.7)])
+    cells = []
+    for layer in (0, 1):
+        for q in quads:
+            cells.append([i + layer * m for i in q] + [i + (layer + 1) * m for i in q])
+    return pos, cells
+
+
 def hex_assembly(nx, ny, nz):
     pos = {}
     cells = []
@@ -122,9 +156,9 @@ def adjacency(cells, dim):
 def cases(tier, seed):
     out = []
     frames = [0, 4] if tier == "quick" else [0, 2, 4, 6]
-    maps = ["s2x2", "s3x3", "s4x2", "onecore", "fourcore", "halfdisk", "oval", "irregular", "h2x2x2", "h3x3x1", "h3x3x2", "h3x3x3"]
+    maps = ["s2x2", "s3x3", "s4x2", "onecore", "fourcore", "halfdisk", "oval", "irregular", "v3", "v5", "v6", "w5", "h2x2x2", "h3x3x1", "h3x3x2", "h3x3x3"]
     if tier == "thorough":
-        maps += ["s4x4", "s3x2"]
+        maps += ["s4x4", "s3x2", "v7", "w3", "w7"]
     for mp in maps:
         for fr in frames:
             for jit in (1, 2):
@@ -143,6 +177,12 @@ def build(case):
     elif mp == "irregular":
         pos, cells = irregular_quads()
         dim = 2
+    elif mp.startswith("v"):
+        pos, cells = star_quads(int(mp[1]))
+        dim = 2
+    elif mp.startswith("w"):
+        pos, cells = star_hexes(int(mp[1]))
+        dim = 3
     elif mp.startswith("h") and mp != "halfdisk":
         nx, ny, nz = int(mp[1]), int(mp[3]), int(mp[5])
         pos, cells = hex_assembly(nx, ny, nz)
